@@ -27,7 +27,7 @@ def solver_kwargs(case, explicit=True):
         precision=case["precision"],
         permeate_temperature=case["perm"].get("T"),
         permeate_pressure=case["perm"].get("p"),
-        calculation_type=case["model"],
+        calculation_type=build.fresh(case["model"]),
     )
     if explicit:
         kw["first_component_permeance"] = build.permeance(case["p1"])
